@@ -3,7 +3,6 @@ from collections.abc import Callable
 from typing import Any, Optional, Type
 
 from mashumaro.core.meta.code.builder import CodeBuilder
-from mashumaro.core.meta.helpers import is_optional, is_type_var_any
 from mashumaro.core.meta.types.common import (
     AttrsHolder,
     FieldContext,
@@ -33,20 +32,14 @@ class CodecCodeBuilder(CodeBuilder):
             if pre_decoder_func:
                 self.ensure_object_imported(pre_decoder_func, "decoder")
                 self.add_line("value = decoder(value)")
-            could_be_none = (
-                shape_type in (Any, type(None), None)
-                or is_type_var_any(self.get_real_type("", shape_type))
-                or is_optional(
-                    shape_type, self.get_field_resolved_type_params("")
-                )
-            )
             unpacked_value = UnpackerRegistry.get(
                 ValueSpec(
                     type=shape_type,
                     expression="value",
                     builder=self,
                     field_ctx=FieldContext(name="", metadata={}),
-                    could_be_none=could_be_none,
+                    # nothing around this expression tests for None
+                    could_be_none=True,
                 )
             )
             self.add_line(f"return {unpacked_value}")
@@ -69,20 +62,14 @@ class CodecCodeBuilder(CodeBuilder):
     ) -> None:
         self.reset()
         with self.indent("def encode(value):"):
-            could_be_none = (
-                shape_type in (Any, type(None), None)
-                or is_type_var_any(self.get_real_type("", shape_type))
-                or is_optional(
-                    shape_type, self.get_field_resolved_type_params("")
-                )
-            )
             packed_value = PackerRegistry.get(
                 ValueSpec(
                     type=shape_type,
                     expression="value",
                     builder=self,
                     field_ctx=FieldContext(name="", metadata={}),
-                    could_be_none=could_be_none,
+                    # nothing around this expression tests for None
+                    could_be_none=True,
                     no_copy_collections=self.get_dialect_or_config_option(
                         "no_copy_collections", ()
                     ),
